@@ -105,6 +105,7 @@ typedef struct {
   int      qclass;
   int      family;  /* for address lookups */
   int      ai_flags;
+  int      tx_at_start; /* transmissions seen on the virtual network when this request was started */
   int      ni_flags;   /* getnameinfo: 0 = ARES_NI_LOOKUPHOST | ARES_NI_NAMEREQD */
   int      odd_args;   /* 0 none; 1.. = an argument combination the entry point refuses or treats specially */
   uint8_t  addr[16]; /* reverse lookups */
@@ -556,6 +557,7 @@ static void app_start_token(int ti)
 
   t->started    = 1;
   t->t_start    = sim_now_us;
+  t->tx_at_start = sim_ntx;
   t->ret_status = -1;
   t->tx_before  = sim_ntx;
   app_outstanding++;
